@@ -776,6 +776,7 @@ func main() {
 	var wg sync.WaitGroup
 	var mu sync.Mutex
 	minimized := 0
+	sampledCat := map[string]bool{}
 	ch := make(chan seqSpec)
 	done := 0
 	for wk := 0; wk < workers; wk++ {
@@ -810,9 +811,21 @@ func main() {
 						b, _ := json.Marshal(spec.Ops)
 						r.Nontrivial(spec.Buffer + string(b))
 					}
-					if spec.Idx%997 == 3 {
-						r.Sample(map[string]interface{}{"buffer": spec.Buffer, "part": spec.Part, "ops": spec.opsString(), "reopen": spec.Reopen, "result": "agrees"})
+					cat := ""
+					switch {
+					case spec.Part == "exhaustive" && spec.Buffer == "tempfile" && len(spec.Ops) == 3 && spec.Idx%500 == 0:
+						cat = "exhaustive-tempfile"
+					case spec.Part == "exhaustive" && spec.Buffer == "memory" && len(spec.Ops) == 3 && spec.Idx%500 == 0:
+						cat = "exhaustive-memory"
+					case spec.Part == "random-wfc" || spec.Part == "random-extend":
+						cat = spec.Part + "-" + spec.Buffer
 					}
+					mu.Lock()
+					if cat != "" && !sampledCat[cat] && len(sampledCat) < 5 {
+						sampledCat[cat] = true
+						r.Sample(map[string]interface{}{"category": cat, "buffer": spec.Buffer, "part": spec.Part, "reads": spec.Reads, "ops": spec.opsString(), "reopen": spec.Reopen, "result": "agrees with the model at every read and stored check"})
+					}
+					mu.Unlock()
 					continue
 				}
 				r.Count("sequences_refuted", 1)
